@@ -496,6 +496,48 @@ func (c *Check) ruleEveryInputRegistered(rule string) {
 				"an iteration over the tx inputs can skip registering the input's outpoint (and not because the same outpoint was registered already): an input spending another output is missing from the conflict index, so a double spend of it is not flagged")
 		}
 	}
+	if n == 0 {
+		// the list filled another way: by index into a slice made with the inputs' length, or into a
+		// local slice that is stored once - one outpoint per input all the same
+		isOutPoint := func(t types.Type) bool { return strings.HasSuffix(t.String(), "wire.OutPoint") }
+		for _, fn := range c.P.FuncsIn("state") {
+			if len(storesToField(fn, fOut)) == 0 {
+				continue
+			}
+			for _, h := range loopsRangingOver(fn, func(v ssa.Value) bool { return mentionsFieldNamed(v, "TxIn") }) {
+				ev := func(in ssa.Instruction) int {
+					switch x := in.(type) {
+					case *ssa.Call:
+						if builtinCall(x, "append") != nil {
+							if sl, ok := x.Type().Underlying().(*types.Slice); ok && isOutPoint(sl.Elem()) {
+								return 1
+							}
+						}
+					case *ssa.Store:
+						if ia, ok := x.Addr.(*ssa.IndexAddr); ok && isOutPoint(x.Val.Type()) {
+							_ = ia
+							return 1
+						}
+					}
+					return 0
+				}
+				counts := iterationCounts(h, ev)
+				if len(counts) == 1 && counts[0] != nil {
+					continue // a loop over the inputs that is about something else
+				}
+				n++
+				c.Touch(fn)
+				skip, hasSkip := counts[0]
+				var w []string
+				if hasSkip {
+					w = pathWitness(fn, skip)
+				}
+				c.Decide(len(counts) > 0 && !hasSkip, rule, "state.(*memPoolTx).populateMemPoolTx#every-input-appended", loopPos(h), "per-iteration path count", w,
+					"every iteration over the inputs stores the input's outpoint",
+					"an iteration over the tx inputs can skip registering the input's outpoint: an input spending another output is missing from the conflict index, so a double spend of it is not flagged")
+			}
+		}
+	}
 	c.Min(rule, "loops appending to memPoolTx.outPoints", n, 1)
 }
 
